@@ -169,7 +169,7 @@ def run(ctx):
     for i in ctx.indices(len(sp), 'exhaustive', exhaustive=True):
         run_exh(ctx, sp, i)
     ctx.deadline = ctx.t0 + total
-    for i in ctx.indices(1500 if ctx.tier == 'quick' else 60000, 'random'):
+    for i in ctx.indices(6000 if ctx.tier == 'quick' else 60000, 'random'):
         run_rand(ctx, i)
 
 
